@@ -81,3 +81,38 @@ pub proof fn axiom_lower_identity(s: Seq<char>)
 pub fn vx_to_lowercase(s: &str) -> (r: String)
     ensures r@ == lower_spec(s@)
 { unimplemented!() }
+
+/// `s.splitn(2, pat)`: at most two pieces — the text before the first occurrence of pat and everything after it
+#[verifier::external_body]
+pub struct VxSplitN<'a> { it: core::marker::PhantomData<&'a str> }
+impl<'a> VxSplitN<'a> {
+    /// pieces not yet yielded
+    pub uninterp spec fn view(&self) -> Seq<Seq<char>>;
+    #[verifier::external_body]
+    pub fn next(&mut self) -> (r: Option<&'a str>)
+        ensures
+            old(self)@.len() == 0 ==> r is None && final(self)@ == old(self)@,
+            old(self)@.len() > 0 ==> r is Some && r->Some_0@ == old(self)@[0] && final(self)@ == old(self)@.skip(1),
+    { unimplemented!() }
+}
+pub open spec fn splitn2_spec(s: Seq<char>, p: Seq<char>) -> Seq<Seq<char>> {
+    let i = find_sub(s, p);
+    if i < 0 { seq![s] } else { seq![s.take(i), s.skip(i + p.len())] }
+}
+#[verifier::external_body]
+pub fn vx_splitn<'a, P: VxPattern>(s: &'a str, n: usize, p: P) -> (r: VxSplitN<'a>)
+    requires n == 2
+    ensures r@ == splitn2_spec(s@, p.pat())
+{ unimplemented!() }
+
+/// R-stradd: `String + &str` (std: appends)
+#[verifier::external_body]
+pub fn vx_string_add(a: String, b: &str) -> (r: String)
+    ensures r@ == a@ + b@
+{ a + b }
+
+/// `Option<String>::unwrap_or_default()`
+#[verifier::external_body]
+pub fn vx_unwrap_or_default_string(o: Option<String>) -> (r: String)
+    ensures r@ == (match o { Some(s) => s@, None => Seq::<char>::empty() })
+{ unimplemented!() }
